@@ -1107,7 +1107,7 @@ Definition judge_C19 (c : c19case) : bool * bool * bool :=
    && forallb (fun o => match o with LPanic => false | _ => true end) obs
    && nav_all (map (fun t : program * list diag => match snd t with [] => Some (nav_info_of (fst t)) | _ => None end) (lc_texts c)) [] (lc_history c)
    (* the hypothesis of C19_navigation_exact: in a tree parsed without error every node's range encloses the targets below it *)
-   && forallb (fun t : program * list diag => match snd t with [] => nested (fst t) | _ => true end) (lc_texts c)
+   && forallb (fun t : program * list diag => match snd t with [] => nested (fst t) && distinct_ranges (fst t) | _ => true end) (lc_texts c)
    && lc_wire c,
    negb (Nat.eqb (List.length (lc_history c)) 0)).
 
